@@ -123,8 +123,9 @@ fn spell_num(v: i64, bits: u8, force_sign: bool) -> String {
     }
 }
 
-const WS_COMMA: [&str; 4] = [" ", "", "  ", "\t"];
-const WS_MN: [&str; 3] = [" ", "  ", "\t"];
+// the parser skips any white space - line breaks included - after a mnemonic and after a comma
+const WS_COMMA: [&str; 9] = [" ", "", "  ", "\t", " ", "", "\n", "\r\n  ", " \n\t"];
+const WS_MN: [&str; 8] = [" ", "  ", "\t", " ", " ", "\n", "\r\n", " \n  "];
 const WS_END: [&str; 6] = ["\n", "\n    ", " ", "\r\n", "\n\n", "\t\n"];
 
 pub fn render(lines: &[Line]) -> String {
